@@ -13,6 +13,7 @@ import (
 	"encoding/json"
 	"fmt"
 	"os"
+	"runtime"
 	"strings"
 
 	"ssvharness/internal/common"
@@ -31,7 +32,66 @@ type result struct {
 	skip bool   // configuration rejected / outside the model: not compared
 }
 
+// evalInter runs the connections of an interleaved case inside one process, one at a time, in the scripted
+// order of turns; a turn lasts until the connection's next yield point (handshake done / after a tunnel read).
+func evalInter(c Case) (res result, subs []result) {
+	if c.Pin {
+		defer runtime.GOMAXPROCS(runtime.GOMAXPROCS(1))
+	}
+	n := len(c.Sub)
+	subs = make([]result, n)
+	ys := make([]*yielder, n)
+	cache := map[string]any{}
+	for i := range c.Sub {
+		y := &yielder{turn: make(chan struct{}), back: make(chan struct{}), cache: cache}
+		ys[i] = y
+		sub := c.Sub[i]
+		sub.y = y
+		go func(i int) {
+			<-y.turn
+			subs[i] = evalImpl(sub)
+			y.done = true
+			y.back <- struct{}{}
+		}(i)
+	}
+	step := func(i int) {
+		if i < 0 || i >= n || ys[i].done {
+			return
+		}
+		ys[i].turn <- struct{}{}
+		<-ys[i].back
+	}
+	for _, i := range c.Order {
+		step(i)
+	}
+	for i := 0; i < n; i++ {
+		for !ys[i].done {
+			step(i)
+		}
+	}
+	var ls []string
+	res.bkt = fmt.Sprintf("interleaved:k=%d", n)
+	for i, r := range subs {
+		if r.skip {
+			ls = append(ls, "skip")
+		} else {
+			ls = append(ls, r.line)
+		}
+		res.nt = res.nt || r.nt
+		if r.key != "" && res.key == "" {
+			res.key = "interleaved:" + r.key
+			res.det = fmt.Sprintf("connection %d of %d (%s), turns %v, pin=%v: %s", i, n, c.Sub[i].Kind, c.Order, c.Pin, r.det)
+		}
+	}
+	res.line = strings.Join(ls, " | ")
+	return
+}
+
 func evalImpl(c Case) (res result) {
+	if c.Kind == "inter" {
+		res, _ = evalInter(c)
+		return
+	}
 	pan := common.Safely(func() {
 		switch c.Kind {
 		case "s5s":
@@ -105,6 +165,13 @@ func sig(c Case) string {
 		Ad A
 		P  string
 	}{c.Kind, c.Auth, c.TCP, c.UDP, c.Users, c.Chunks, c.Act, c.AuthMsg, c.Cmd, c.Addr, c.Payload})
+	if c.Kind == "inter" {
+		x := fmt.Sprint(c.Order, c.Pin)
+		for _, sc := range c.Sub {
+			x += sig(sc)
+		}
+		return x
+	}
 	return string(b)
 }
 
@@ -122,18 +189,50 @@ func (e *engine) eval(cases []Case) error {
 	}
 	var model []string
 	if e.o.Driver != "" {
-		lines := make([]string, len(cases))
-		for i, c := range cases {
-			lines[i] = c.line()
+		var lines []string
+		for _, c := range cases {
+			if c.Kind == "inter" {
+				for _, sc := range c.Sub {
+					lines = append(lines, sc.line())
+				}
+			} else {
+				lines = append(lines, c.line())
+			}
 		}
-		var err error
-		model, err = common.RunDriverOnce(e.o.Driver, lines)
+		raw, err := common.RunDriverOnce(e.o.Driver, lines)
 		if err != nil {
 			return err
 		}
+		// the model treats connections as independent: an interleaved case is the tuple of its connections' answers
+		pos := 0
+		for _, c := range cases {
+			if c.Kind == "inter" {
+				model = append(model, strings.Join(raw[pos:pos+len(c.Sub)], " | "))
+				pos += len(c.Sub)
+			} else {
+				model = append(model, raw[pos])
+				pos++
+			}
+		}
 	}
 	for i, c := range cases {
-		res := evalImpl(c)
+		var res result
+		if c.Kind == "inter" {
+			var subs []result
+			res, subs = evalInter(c)
+			if model != nil { // mask connections that are not compared (rejected configuration / outside the HTTP grammar)
+				ms := strings.Split(model[i], " | ")
+				is := strings.Split(res.line, " | ")
+				for k := range subs {
+					if k < len(ms) && k < len(is) && (subs[k].skip || strings.HasPrefix(ms[k], "err:oom")) {
+						ms[k], is[k] = "skip", "skip"
+					}
+				}
+				model[i], res.line = strings.Join(ms, " | "), strings.Join(is, " | ")
+			}
+		} else {
+			res = evalImpl(c)
+		}
 		e.rep.Case(sig(c), res.nt)
 		e.rep.Count(res.bkt)
 		if i%97 == 0 {
@@ -264,6 +363,13 @@ func (e *engine) runAll() error {
 			c = genHTTPC(f)
 		}
 		if err := add(c); err != nil {
+			return err
+		}
+	}
+	// 3b. interleaved connections of one process (state shared across connections / handshakes)
+	ni := o.Budget(1200, 40000)
+	for i := 0; i < ni; i++ {
+		if err := add(genInter(r.Fork(uint64(1<<40 + i)))); err != nil {
 			return err
 		}
 	}
